@@ -396,6 +396,37 @@ structure ExecOut where
   dirty : Bool := false
 deriving Inhabited
 
+/-- the VM part of `contract.Execute`: `Create` (SetCode, creator meta) or `Call` (needs code), the
+scripted outcome, the fee added, the error classes, the balance-for-fee check, `StageContractState` -/
+def vmCall (w : World) (tx : Tx) (snd rcv : Copy) (isFD : Bool) (base : Nat) : ExecOut :=
+  let pre : Option (Copy × Pend) :=
+    if rcv.deploy then
+      if tx.payloadLen = 0 then none
+      else some ({ rcv with cur := { rcv.cur with code := true } }, { creator := some snd.id })
+    else if rcv.cur.code then some (rcv, {}) else none
+  match pre with
+  | none => { snd, rcv, w, fee := base, err := some .runtime }
+  | some (rcv, pend) =>
+    match tx.script.err with
+    | .negfee => { snd, rcv, w, fee := base, err := some (.reject .system) }
+    | .system => { snd, rcv, w, fee := base + tx.script.fee, err := some (.reject .system) }
+    | .vm => { snd, rcv, w, fee := base + tx.script.fee, err := some .runtime }
+    | .ok =>
+      match runXfers snd.id rcv.id snd.cur rcv.cur w false tx.script.xfers with
+      | .fail dirty => { snd, rcv, w, fee := base + tx.script.fee, err := some .runtime, dirty }
+      | .ok sa ra w' _ =>
+        let snd := { snd with cur := sa }
+        let rcv := { rcv with cur := ra }
+        let pend := { pend with sets := tx.script.sets, dels := tx.script.dels }
+        let fee := base + tx.script.fee
+        let payer := if isFD then rcv else snd
+        if payer.cur.bal < fee then
+          -- vmError(ErrInsufficientBalance) after the VM has committed its calls
+          let shared := w.cached.contains rcv.id
+          let wl := if shared then w'.write rcv.id pend else w'
+          { snd, rcv, w := wl, fee, err := some .runtime, leak := decide (wl ≠ w) }
+        else { snd, rcv, w := w'.stage rcv.id pend, fee, err := none }
+
 /-- `contract.Execute` (not MULTICALL) with the scripted VM -/
 def execute (c : Ctx) (w : World) (tx : Tx) (snd rcv : Copy) (isFD : Bool) : ExecOut :=
   let base := txBaseFee c tx.payloadLen
@@ -412,34 +443,7 @@ def execute (c : Ctx) (w : World) (tx : Tx) (snd rcv : Copy) (isFD : Bool) : Exe
         -- checkRedeploy
         if rcv.redeploy && (!rcv.cur.code || rcv.isNew) then { snd, rcv, w, fee := base, err := some .runtime }
         else if rcv.redeploy && (mget w.creator rcv.id != some snd.id) then { snd, rcv, w, fee := base, err := some .runtime }
-        else
-          -- Create (SetCode, creator meta) / Call (needs code)
-          let pre : Option (Copy × Pend) :=
-            if rcv.deploy then
-              if tx.payloadLen = 0 then none
-              else some ({ rcv with cur := { rcv.cur with code := true } }, { creator := some snd.id })
-            else if rcv.cur.code then some (rcv, {}) else none
-          match pre with
-          | none => { snd, rcv, w, fee := base, err := some .runtime }
-          | some (rcv, pend) =>
-            match tx.script.err with
-            | .negfee => { snd, rcv, w, fee := base, err := some (.reject .system) }
-            | .system => { snd, rcv, w, fee := base + tx.script.fee, err := some (.reject .system) }
-            | .vm => { snd, rcv, w, fee := base + tx.script.fee, err := some .runtime }
-            | .ok =>
-              match runXfers snd.id rcv.id snd.cur rcv.cur w false tx.script.xfers with
-              | .fail dirty => { snd, rcv, w, fee := base + tx.script.fee, err := some .runtime, dirty }
-              | .ok sa ra w' _ =>
-                let snd := { snd with cur := sa }
-                let rcv := { rcv with cur := ra }
-                let pend := { pend with sets := tx.script.sets, dels := tx.script.dels }
-                let fee := base + tx.script.fee
-                let payer := if isFD then rcv else snd
-                if payer.cur.bal < fee then
-                  let shared := w.cached.contains rcv.id
-                  let wl := if shared then w'.write rcv.id pend else w'
-                  { snd, rcv, w := wl, fee, err := some .runtime, leak := decide (wl ≠ w) }
-                else { snd, rcv, w := w'.stage rcv.id pend, fee, err := none }
+        else vmCall w tx snd rcv isFD base
 
 /-! ## governance -/
 
